@@ -214,7 +214,9 @@ def rawAddHeader (h : Headers) (line : Bytes) : Headers :=
   let key := s.takeWhile isTokenChar
   let afterKey := (s.dropWhile isTokenChar).dropWhile isSpHt
   match afterKey with
-  | 58 :: v => if key.isEmpty then h.addRaw line else h.add key (v.dropWhile isSpHt)
+  | 58 :: v =>
+    if key.isEmpty then h.addRaw line
+    else if Gen.rawLineKept then h.add key (v.dropWhile isSpHt) else h.set key (v.dropWhile isSpHt)
   | _ => h.addRaw line
 
 /-- `consume(data, length, conn)`: returns the parser, the unconsumed rest, and the header set if the
